@@ -18,3 +18,60 @@ Theorem C13_terminates : forall atts sleeps t D T smin,
   0 < smin -> Forall (fun s => smin <= s) sleeps -> t <= D ->
   N.of_nat (cr_attempts (retry t D T atts sleeps)) <= 1 + (D - t) / smin.
 Proof. exact retry_attempts_bounded. Qed.
+
+(* ---- the blocking calls that are compositions of retry loops (TimingProc.v) ---- *)
+From BMC Require Import TimingProc.
+
+(* the loop with the three outcomes the two command loops distinguish; outside a session it is the loop above *)
+Theorem C13_three_outcome_loop_is_retry : forall atts sleeps t D T,
+  retry_k false t D T atts sleeps = retry t D T (map forget atts) sleeps.
+Proof. exact retry_k_sessionless. Qed.
+Theorem C13_loop_deadline : forall sess atts sleeps t D T,
+  t <= cr_end (retry_k sess t D T atts sleeps) <= N.max D t.
+Proof. exact retry_k_bounds. Qed.
+Theorem C13_loop_no_false_success : forall sess atts sleeps t D T,
+  cr_ok (retry_k sess t D T atts sleeps) = true -> exists d, In (d, Final) atts /\ d <= T.
+Proof. exact retry_k_no_false_success. Qed.
+Theorem C13_loop_expired : forall sess atts sleeps t D T, D <= t -> atts <> [] ->
+  let r := retry_k sess t D T atts sleeps in
+  cr_end r = t /\ cr_attempts r = 1%nat /\ (cr_ok r = true -> exists rest, atts = (0, Final) :: rest).
+Proof. exact retry_k_expired. Qed.
+(* in-session command, session close: a reply that does not arrive in its window ends the call after that one attempt *)
+Theorem C13_session_loss_is_terminal : forall d k rest sleeps t D T,
+  N.min T (D - t) < d ->
+  let r := retry_k true t D T ((d, k) :: rest) sleeps in
+  cr_ok r = false /\ cr_attempts r = 1%nat /\ cr_end r = t + N.min T (D - t).
+Proof. exact retry_k_session_loss_terminal. Qed.
+
+(* session handshake (discovery, Open Session, RAKP 1, RAKP 3), one round of the SDR walk: any number of exchanges under
+   one context, for any outcomes and back-off sleeps *)
+Theorem C13_procedure_deadline : forall sess calls t D T,
+  t <= pr_end (run_calls sess t D T calls) <= N.max D t.
+Proof. exact run_calls_bounds. Qed.
+Theorem C13_procedure_no_false_success : forall sess calls t D T,
+  pr_ok (run_calls sess t D T calls) = true ->
+  Forall (fun c : call => exists d, In (d, Final) (fst c) /\ d <= T) calls.
+Proof. exact run_calls_no_false_success. Qed.
+Theorem C13_procedure_expired : forall sess calls t D T, D <= t -> Forall (fun c : call => fst c <> []) calls ->
+  let p := run_calls sess t D T calls in
+  pr_end p = t /\ pr_attempts p = pr_calls p /\
+  (calls <> [] -> pr_ok p = true -> Forall (fun c : call => exists rest, fst c = (0, Final) :: rest) calls).
+Proof. exact run_calls_expired. Qed.
+Theorem C13_procedure_stops_at_first_failure : forall sess calls t D T,
+  pr_ok (run_calls sess t D T calls) = false -> (pr_calls (run_calls sess t D T calls) <= length calls)%nat /\
+  exists pre c post, calls = pre ++ c :: post /\ length pre = pred (pr_calls (run_calls sess t D T calls)) /\
+    pr_ok (run_calls sess t D T pre) = true /\
+    cr_ok (retry_k sess (pr_end (run_calls sess t D T pre)) D T (fst c) (snd c)) = false.
+Proof. exact run_calls_stop_at_failure. Qed.
+
+(* SDR repository retrieval: backoff.Retry around whole rounds of in-session exchanges *)
+Theorem C13_outer_loop_deadline : forall D rounds sleeps t, Forall (op_bounded D) rounds ->
+  t <= cr_end (outer t D rounds sleeps) <= N.max D t.
+Proof. exact outer_bounds. Qed.
+Theorem C13_retrieval_deadline : forall rounds sleeps t D T,
+  t <= cr_end (retrieval t D T rounds sleeps) <= N.max D t.
+Proof. exact retrieval_bounds. Qed.
+Theorem C13_retrieval_no_false_success : forall rounds sleeps t D T,
+  cr_ok (retrieval t D T rounds sleeps) = true ->
+  exists round, In round rounds /\ Forall (fun c : call => exists d, In (d, Final) (fst c) /\ d <= T) round.
+Proof. exact retrieval_no_false_success. Qed.
